@@ -856,11 +856,22 @@ impl Scanner for EntryScanner<'_> {
         // trim off everything to the left already.
         self.zonefile.buf.trim_to(self.zonefile.buf.start);
 
+        // Remember if we are inside a quoted value.
+        let is_quoted = self.zonefile.buf.cat == ItemCat::Quoted;
+
         // Skip over symbols that don’t need converting at the beginning.
         while self.zonefile.buf.next_char_symbol()?.is_some() {}
 
         // If we aren’t done yet, we have escaped characters to replace.
-        let mut write = self.zonefile.buf.start;
+        // If we are and the value was quoted, the closing double quote has
+        // been skipped over already but is not part of the value.
+        let mut write = if is_quoted
+            && self.zonefile.buf.cat == ItemCat::None
+        {
+            self.zonefile.buf.start - 1
+        } else {
+            self.zonefile.buf.start
+        };
         while let Some(sym) = self.zonefile.buf.next_symbol()? {
             write += sym
                 .into_char()?
